@@ -500,6 +500,10 @@ class World(object):
             tag = t[0]
             if tag == "add":
                 return ev(t[1]) + ev(t[2])
+            if tag == "iadd":
+                acc = ev(t[1])          # `total = partial; total += g`: the left operand stays reachable under its name
+                acc += ev(t[2])
+                return acc
             if tag == "sub":
                 return ev(t[1]) - ev(t[2])
             if tag == "mul":
@@ -527,6 +531,17 @@ class World(object):
     def op_newpoint(self, op):
         from PEPit import Point
         self.bind(op["out"], Point(), "point")
+
+    def op_rename(self, op):
+        """set_name on an existing object (function, point, expression, constraint, LMI) between two solves."""
+        self.get(op["h"]).set_name(op["name"])
+
+    def op_getobjective(self, op):
+        """The user holds the objective variable of the PEP (public attribute `objective`, set by the first solve)."""
+        obj = getattr(self.get(op["P"]), "objective", None)
+        if obj is None:
+            raise KeyError("objective")
+        self.bind(op["out"], obj, "expr")
 
     def op_praw(self, op):
         """A combination built with the documented constructor Point(is_leaf=False, decomposition_dict=...), which
@@ -803,6 +818,11 @@ class World(object):
             else:
                 t.add_psd_matrix(entries, **kw)
                 M = t.list_of_psd[-1]
+        if op.get("reuse_buffer") and op.get("form") == "array":
+            # the caller's work array is refilled for something else after the declaration
+            for i in range(entries.shape[0]):
+                for j in range(entries.shape[1]):
+                    entries[i, j] = 123.0 if i == j else 0.0
         self.bind(op["out"], M, "psd", den=dens)
         if target is not None:
             if self.kind[target] == "pep":
